@@ -7,7 +7,7 @@ PREFIX = 'c12_'
 FEATURES = None
 BOUNDS = {'scalars': 'bool, i8..i64, u8..u64, f32/f64 (all bit patterns), char: full range, exhaustive by CBMC',
           'option': 'Option<T> of each scalar and of String', 'strings': 'String / Vec<u8> of length <= 2 with symbolic (ASCII) content; &str, Cow<str> concrete',
-          'wrong_type': 'every (source variant incl. NULL, target type) pair over the 14 default variants', 'tuples': 'arity 1..3 mixed types, every arity 4..12 with i32 members',
+          'wrong_type': 'every (source variant incl. NULL, target type) pair over the 14 default variants', 'tuples': 'arity 1..3 mixed types, every arity 4..12 with i32 members; extraction at a different arity (5 as 4, 4 as 5, 12 as 11, 3 as 2, 2 as 3, 4 as 3) must panic (#[kani::should_panic] harnesses with a native twin as replay)',
           'unwind': 'loops only over the <= 12-element containers; Kani unwinding assertions are on'}
 ASSUME = ['serde_json::Value, BigDecimal, DateTime<Local>, pgvector and arrays of non-i32 elements are outside the claim (CBMC does not finish the JSON / BigDecimal harnesses within 300 s; Local needs the system time zone)',
           'String payloads are ASCII in the harnesses (UTF-8 validity is not the subject); heap values are mem::forget-ed at the end of harnesses']
